@@ -54,17 +54,19 @@ def _dimension_dirname(value):
     """
     Dimension names and values can come straight from a request (TIME, ELEVATION, DIM_*).
     They are used as (part of) a single directory name and must never be able to
-    introduce additional path segments.
+    introduce additional path segments. Path separators are escaped (like in URLs, so
+    that different values never share a directory).
 
     >>> _dimension_dirname('2020-08-25T00:00:00Z')
     '2020-08-25T00:00:00Z'
     >>> _dimension_dirname('a/../../b')
-    'a_.._.._b'
+    'a%2F..%2F..%2Fb'
+    >>> _dimension_dirname('a%2Fb')
+    'a%252Fb'
     """
-    value = str(value)
-    for sep in ('/', '\\', os.sep, os.altsep):
-        if sep:
-            value = value.replace(sep, '_')
+    value = str(value).replace('%', '%25')
+    for sep, escaped in (('/', '%2F'), ('\\', '%5C')):
+        value = value.replace(sep, escaped)
     return value
 
 
